@@ -513,6 +513,38 @@ fn named_part(ctx: &Ctx, job: usize, iters: u64) -> Stats {
     st
 }
 
+/// The connectives through the formula language under orderings handed in through the API (dense,
+/// 1-based, sparse, descending vectors; with names the ordering does not list): every spelling of
+/// every connective over x, y, z, judged pointwise by name.
+fn language_connectives(st: &mut Stats) {
+    let orderings: [&[(&str, usize)]; 7] = [&[], &[("x", 0)], &[("x", 1)], &[("x", 0), ("z", 3)], &[("z", 4), ("x", 2)], &[("y", 7), ("x", 3), ("z", 5)], &[("z", 1), ("y", 0)]];
+    let forms = [
+        "x & y", "x and y", "x * y", "x | y", "x or y", "x + y", "x ^ y", "x xor y", "x nor y", "x nand y", "x => y", "x implies y", "x in y", "x <= y", "x <=> y", "x iff y", "x eq y", "-x", "!x", "not x",
+        "if x then y else z", "if z then x else y", "x & !y", "(x | y) & -(x & y)", "x <=> (y ^ z)", "(x => y) & (y => z) => (x => z)",
+    ];
+    for ord in orderings {
+        for text in forms {
+            st.evals += 1;
+            st.bump("language_connective_forms");
+            let case = json!({"kind": "language-connective", "text": text, "ordering": ord.iter().map(|(n, i)| json!([n, i])).collect::<Vec<_>>()});
+            let Ok(ast) = crate::refsyn::parse_text(text) else { continue };
+            let Ok((names, want)) = crate::refsem::eval_formula(&ast) else { continue };
+            let syms: Option<Vec<NamedSymbol>> = if ord.is_empty() { None } else { Some(ord.iter().map(|(n, i)| NamedSymbol { name: Rc::new(n.to_string()), id: *i }).collect()) };
+            util::budget(1_000_000, 100);
+            match guarded(|| rsbdd::parser::ParsedFormula::new(&mut std::io::BufReader::new(text.as_bytes()), syms.clone()).map(|pf| pf.eval())) {
+                Ok(Ok(d)) => match crate::conv::tt_of_named(&d, &names) {
+                    Ok(got) if got == want => {
+                        st.nt.insert(mix(util::hash_str(text), ord.len() as u64 * 31 + ord.first().map(|x| x.1 as u64).unwrap_or(99)));
+                    }
+                    other => st.violate("c03.pointwise", "C03:language:wrong-value".into(), format!("`{}` under the API ordering {:?} evaluates to {} (table {:?}), pointwise the table over {:?} is {}", text, ord, short(&d), other.map(|t| t.hex()), names, want.hex()), case),
+                },
+                Ok(Err(e)) => st.violate("c03.pointwise", "C03:language:rejected".into(), format!("`{}` under {:?}: {}", text, ord, e), case),
+                Err(c) => st.violate("c03.panic", format!("C03:language:{}", c.signature()), format!("`{}` under {:?}: {:?}", text, ord, c), case),
+            }
+        }
+    }
+}
+
 pub fn run(ctx: &Ctx) -> (Stats, Spec) {
     let cfgs = configs(3).len();
     // exhaustive binary part: job = (config, chunk of a-indices)
@@ -577,8 +609,9 @@ pub fn run(ctx: &Ctx) -> (Stats, Spec) {
     });
     st.merge(crate::report::merge_all(parts));
 
+    language_connectives(&mut st);
     let spec = Spec {
-        rule: "exhaustive: every ordered pair (triple for ite) of Boolean functions over 3 (2) variables in every argument position, under 5 label configurations (adjacent, interleaved-disjoint, extreme indices incl. usize::MAX, overlapping, disjoint-nested); random: operands over 4-6 sparse labels built by random routes with overlapping/nested/disjoint supports, BDDEnv<usize>, BDDEnv<NamedSymbol> (ids that coincide when narrowed to 8, 16 or 32 bits) and an environment over a symbol type whose Hash writes nothing (every same-shape pair of diagrams collides); rounds with operands NOT built by the environment (plain unshared diagrams, dropped after use, thousands of rounds on one environment). distinct = (connective, operand tables, configuration); non-trivial = every operand non-constant. MANY VARIABLES: the same judgement on environments with 65-200 variables (more than a machine word of them), where operands are random DNFs and results are compared pointwise on 48 sampled assignments per case (biased towards the operands' cubes) and walked for order / reduction.".into(),
+        rule: "exhaustive: every ordered pair (triple for ite) of Boolean functions over 3 (2) variables in every argument position, under 5 label configurations (adjacent, interleaved-disjoint, extreme indices incl. usize::MAX, overlapping, disjoint-nested); random: operands over 4-6 sparse labels built by random routes with overlapping/nested/disjoint supports, BDDEnv<usize>, BDDEnv<NamedSymbol> (ids that coincide when narrowed to 8, 16 or 32 bits) and an environment over a symbol type whose Hash writes nothing (every same-shape pair of diagrams collides); every spelling of every connective through the formula language under 7 API orderings (none, dense, 1-based, sparse, descending vectors, unlisted names); rounds with operands NOT built by the environment (plain unshared diagrams, dropped after use, thousands of rounds on one environment). distinct = (connective, operand tables, configuration); non-trivial = every operand non-constant. MANY VARIABLES: the same judgement on environments with 65-200 variables (more than a machine word of them), where operands are random DNFs and results are compared pointwise on 48 sampled assignments per case (biased towards the operands' cubes) and walked for order / reduction.".into(),
         assumptions: vec![
             "operands are diagrams produced by the same environment over a common variable order (the statement's precondition)".into(),
             "the value of a diagram is read by following T/F edges from the root (tt_of_bdd), independent of any engine operation".into(),
@@ -603,6 +636,10 @@ pub fn replay(_ctx: &Ctx, _monitor: &str, case: &Value, st: &mut Stats) {
         return;
     }
     let kind = case.get("kind").and_then(|k| k.as_str()).unwrap_or("");
+    if kind == "language-connective" {
+        language_connectives(st);
+        return;
+    }
     if kind == "named-binary" {
         let mut c2 = _ctx.clone();
         c2.seed = case.get("seed").and_then(|j| j.as_u64()).unwrap_or(_ctx.seed);
